@@ -311,23 +311,33 @@ func checkC10(p *Prog, r *Report) {
 		// getBuildEnv is called so that pass_env is included: PassEnv reads are not under an `includeX` parameter
 		if gbe != nil {
 			okk := false
-			for _, g := range withAnon(gbe) {
-				for _, cs := range callsOfLocalClosures(g) {
-					for k := range p.fieldsOf(cs.arg, 0) {
-						if k == "struct.PassEnv" {
-							uncond := true
-							for _, f := range condFacts(cs.instr.Block()) {
-								if _, isPrm := f.V.(*ssa.Parameter); isPrm {
-									uncond = false
-								}
+			// the call that adds the listed variables: of a local closure, or of a helper of this package
+			eachInstr(gbe, true, func(_ *ssa.Function, ins ssa.Instruction) {
+				cc := callCommon(ins)
+				if cc == nil || topFunc(ins.Parent()) != gbe {
+					return
+				}
+				callee := resolveCalleeDeep(cc)
+				if callee == nil || callee.Blocks == nil || callee.Pkg != gbe.Pkg {
+					return
+				}
+				for _, arg := range cc.Args {
+					for k := range p.fieldsOf(arg, 0) {
+						if k != "struct.PassEnv" {
+							continue
+						}
+						uncond := true
+						for _, f := range condFacts(ins.Block()) {
+							if prm, isPrm := f.V.(*ssa.Parameter); isPrm && prm.Parent() == gbe {
+								uncond = false
 							}
-							if uncond {
-								okk = true
-							}
+						}
+						if uncond {
+							okk = true
 						}
 					}
 				}
-			}
+			})
 			r.check(okk, rule, "config pass_env is always part of getBuildEnv", p.pos(gbe.Pos()), fnName(gbe), "Build.PassEnv is added unconditionally (not under includeUnsafe/includePath)", "Build.PassEnv is only added under a flag parameter: the hash (computed with flags off) would not see pass_env values")
 		}
 	} else {
